@@ -294,6 +294,28 @@ func init() {
 			}
 			time.Sleep(2 * time.Millisecond)
 		})
+		// a peer that is far ahead: a vertex whose weight is beyond the truncation mark arrives by gossip, so
+		// the background truncation loop really fires (and writes its bookkeeping) while admissions go on
+		wg.Add(1)
+		go func() {
+			defer wg.Done()
+			time.Sleep(dur / 3)
+			for k := 0; k < 3 && !stop.Load(); k++ {
+				s := a.ab.VerifSnapshot()
+				if len(s.Leaves) == 0 {
+					return
+				}
+				t, _ := transaction.New("ahead", spice.Melange{}, []byte{byte(k), 'h'}, ws[2].Address(), ws[1])
+				if v, err := accountant.NewVertex(t, s.Leaves[0], s.Leaves[0], s.Weight+uint64(150000*(k+1)), ws[3]); err == nil {
+					if a.ab.AddLeaf(ctx, &v) == nil {
+						note("a.AddLeaf.far-ahead.ok")
+					} else {
+						note("a.AddLeaf.far-ahead.err")
+					}
+				}
+				time.Sleep(dur / 6)
+			}
+		}()
 		time.Sleep(dur)
 		stop.Store(true)
 		wg.Wait()
